@@ -1343,10 +1343,24 @@ impl BatchBlobStore for DictZipBlobStore {
     where
         I: IntoIterator<Item = Vec<u8>>,
     {
+        // The caller gets ids for all blobs or for none: refuse the batch before storing anything
+        // (put() refuses empty blobs) and take back what was stored if a later blob fails
+        let blobs: Vec<Vec<u8>> = blobs.into_iter().collect();
+        if blobs.iter().any(|blob| blob.is_empty()) {
+            return Err(ZiporaError::invalid_data("Cannot store empty blob"));
+        }
+
         let mut ids = Vec::new();
         for blob in blobs {
-            let id = self.put(&blob)?;
-            ids.push(id);
+            match self.put(&blob) {
+                Ok(id) => ids.push(id),
+                Err(e) => {
+                    for id in ids {
+                        let _ = self.remove(id);
+                    }
+                    return Err(e);
+                }
+            }
         }
         Ok(ids)
     }
